@@ -183,6 +183,26 @@ def step (st : State) (w : List String) : State × String :=
       | .secure => some "secure" | .insecure => some "insecure" | .typeExists => some "fail:typeexists"
       | .badDelegation => some "fail:baddelegation" | .noCover => some "fail:nocover" | .optOut => some "fail:optout"
     (st, r.getD "bad-op")
+  | "nsec3" :: "deleg" :: _ =>
+    let r : Option String := do
+      let vs := field w "V"
+      let view : Option N3View :=
+        match vs.toList with
+        | ['x', a, b, c] => some { exact := some (a == 'n', b == 'D', c == 's') }
+        | 'm' :: rest =>
+          match (String.ofList rest).splitOn ":" with
+          | [ce, cv, _wv] => some { ceFound := ce != "0", ceBad := ce == "b", cover := if cv == "n" then none else some (cv == "1") }
+          | _ => none
+        | _ => none
+      let v ← view
+      match verifyDelegation3 v, v.exact with
+      | .insecure, _ => some "ok"
+      | .noCover, some _ => some "fail:nsmissing"
+      | .noCover, none => some "fail:nocover"
+      | .badDelegation, _ => some "fail:baddelegation"
+      | .optOut, _ => some "fail:optout"
+      | _, _ => some "bad-op"
+    (st, r.getD "bad-op")
   | ["proofname", "check", q, ds] =>
     match parseBool ds with
     | some d => (st, showName (insecureProofName (parseName q) d))
